@@ -174,6 +174,14 @@ where
     jobs.push(Job::new(job_name::<U>("i/order"), move |ctx| {
         ctx.run("order", ctx.budget(QUICK, FACTOR), cmp_pairs(sh), order::<I>);
     }));
+    jobs.push(Job::new(job_name::<U>("sweep"), move |ctx| {
+        let full = ctx.tier() == vlib::Tier::Thorough;
+        ctx.enumerate("order_u", "position pairs for every bit position", position_pairs(sh, full), order::<U>);
+        ctx.enumerate("order_i", "position pairs for every bit position", position_pairs(sh, full), order::<I>);
+        let zero = Pat(vec![0u8; sh.bytes]);
+        ctx.enumerate("vs_zero_i", "+-(2^k - 1), +-2^k, ... against zero for every k", position_values(sh, full).flat_map(move |p| [(p.clone(), zero.clone()), (zero.clone(), p)]), order::<I>);
+        ctx.enumerate("sign_i", "2^k - 1, 2^k, 2^k + 1, negations, complements for every k", position_values(sh, full), sign_preds::<I>);
+    }));
     jobs.push(Job::new(job_name::<U>("clamp_minmax"), move |ctx| {
         let s = || (cmp_pairs(sh), gen::pattern(sh), any::<bool>()).prop_map(|((a, b), c, sw)| if sw { (a, b, c) } else { (c, a, b) });
         ctx.run("clamp_u", ctx.budget(QUICK / 2, FACTOR), s(), clamp3::<U>);
@@ -216,7 +224,7 @@ fn main() {
     runner::main(
         Property {
             id: "C07",
-            rule: "Pairs are built for comparison: independent structured patterns, equal values, values differing in exactly one digit j (every j), sharing the top j digits, same bits with opposite top bit, a and a+-1/+-2, zero top digit with arbitrary lower digits; clamp triples with bounds sorted on the reference side. Oracle: the order of the denoted reference integers (two's complement for signed) for ==, !=, <, <=, >, >=, cmp, partial_cmp, min, max, clamp (inherent const twins and Ord/PartialOrd trait methods), equality iff identical digit arrays, equal hashes for the same value reached by different computations (reload, (a+b)-b, !!a, (a^b)^b, parse(print(a))), signum/is_positive/is_negative from the sign of the reference value. NON-TRIVIAL: unequal values sharing >= 1 leading digit, or differing signs, or equal values; clamp: value outside the bounds; sign predicates: negative, zero, or positive with zero top digit. distinct = distinct (profile, job, inputs) by 64-bit hash. 8-bit configuration enumerated completely.",
+            rule: "Pairs are built for comparison: independent structured patterns, equal values, values differing in exactly one digit j (every j), sharing the top j digits, same bits with opposite top bit, a and a+-1/+-2, zero top digit with arbitrary lower digits; clamp triples with bounds sorted on the reference side. Oracle: the order of the denoted reference integers (two's complement for signed) for ==, !=, <, <=, >, >=, cmp, partial_cmp, min, max, clamp (inherent const twins and Ord/PartialOrd trait methods), equality iff identical digit arrays, equal hashes for the same value reached by different computations (reload, (a+b)-b, !!a, (a^b)^b, parse(print(a))), signum/is_positive/is_negative from the sign of the reference value. NON-TRIVIAL: unequal values sharing >= 1 leading digit, or differing signs, or equal values; clamp: value outside the bounds; sign predicates: negative, zero, or positive with zero top digit. distinct = distinct (profile, job, inputs) by 64-bit hash. 8-bit configuration enumerated completely. A deterministic SWEEP additionally enumerates, per configuration, position-specific inputs (2^k - 1, 2^k, 2^k + 1 with their negations and complements; carry / borrow chains and power-of-two products ending at every bit position k; every shift / rotate amount; every bit index; every float exponent) - all positions on types up to 1088 bits, a sparse selection of a few hundred positions on wider types in the quick tier, all positions in the thorough tier.",
             assumptions: &[
                 "digits()/from_digits()/to_bits()/from_bits() are the trusted observation channel",
                 "hash inequality of unequal values and clamp with lo > hi (asserts) are outside the property",
